@@ -49,6 +49,8 @@ func unsupported(format string, a ...any) {
 
 type VC struct {
 	qarr     map[string]string // slice term -> declared constant naming its backing array (quantifier triggers)
+	siteApplied map[int]int   // callsite clause ordinal -> number of sites it applied at
+	siteSeen    map[int]bool  // callsite clause ordinal -> its callee is called somewhere in the function
 	eng      *Engine
 	sc       *Script
 	te       *TypeEnv
